@@ -46,6 +46,7 @@ type c17bDevice struct {
 	Mem    int    `json:"mem,omitempty"`    // capacity "mem" (0: no capacity)
 	Policy string `json:"policy,omitempty"` // "", default2, range, values
 	Slots  int    `json:"slots,omitempty"`  // consumes cs0/slots
+	Units  int    `json:"units,omitempty"`  // consumes cs1/units
 }
 
 type c17bSlice struct {
@@ -60,6 +61,7 @@ type c17bPool struct {
 	Name         string      `json:"name"`
 	Slices       []c17bSlice `json:"slices"`
 	CounterSlots int         `json:"counterSlots,omitempty"`
+	CounterUnits int         `json:"counterUnits,omitempty"`
 	Incomplete   bool        `json:"incomplete,omitempty"`
 }
 
@@ -67,6 +69,7 @@ type c17bIT struct {
 	Name         string       `json:"name"`
 	Devices      []c17bDevice `json:"devices,omitempty"`
 	CounterSlots int          `json:"counterSlots,omitempty"`
+	CounterUnits int          `json:"counterUnits,omitempty"`
 }
 
 type c17bNC struct {
@@ -111,7 +114,7 @@ type c17bScenario struct {
 	Steps        []c17bStep     `json:"steps"`
 }
 
-func c17bDrawDevice(t *rapid.T, name string, counters bool) c17bDevice {
+func c17bDrawDevice(t *rapid.T, name string, counters, units bool) c17bDevice {
 	d := c17bDevice{Name: name, Model: rapid.SampledFrom([]string{"a", "a", "b"}).Draw(t, "model"), Numa: rapid.SampledFrom([]int{0, 0, 0, 1, 1, 1, -1}).Draw(t, "numa")}
 	if dpct(t, 30, "multi") {
 		d.Multi = true
@@ -119,6 +122,9 @@ func c17bDrawDevice(t *rapid.T, name string, counters bool) c17bDevice {
 		d.Policy = rapid.SampledFrom([]string{"", "", "default2", "range", "values"}).Draw(t, "policy")
 	} else if counters && dpct(t, 70, "consumes") {
 		d.Slots = rapid.IntRange(1, 2).Draw(t, "slots")
+		if units && dpct(t, 70, "consumesUnits") {
+			d.Units = rapid.IntRange(1, 3).Draw(t, "units")
+		}
 	}
 	return d
 }
@@ -147,6 +153,9 @@ func drawC17bDevices(t *rapid.T) *c17bScenario {
 		}
 		if dpct(t, 35, "counters") {
 			p.CounterSlots = rapid.IntRange(1, 4).Draw(t, "counterSlots")
+			if dpct(t, 50, "secondCounterSet") {
+				p.CounterUnits = rapid.IntRange(1, 6).Draw(t, "counterUnits")
+			}
 		}
 		p.Incomplete = dpct(t, 3, "incomplete")
 		dev := 0
@@ -159,13 +168,13 @@ func drawC17bDevices(t *rapid.T) *c17bScenario {
 				sl.Node = "node-x"
 			}
 			for k := 0; k < rapid.IntRange(1, 4).Draw(t, "devices"); k++ {
-				sl.Devices = append(sl.Devices, c17bDrawDevice(t, fmt.Sprintf("dev-%d", dev), p.CounterSlots > 0))
+				sl.Devices = append(sl.Devices, c17bDrawDevice(t, fmt.Sprintf("dev-%d", dev), p.CounterSlots > 0, p.CounterUnits > 0))
 				dev++
 			}
 			p.Slices = append(p.Slices, sl)
 		}
 		// some devices are already allocated in the cluster (never beyond the pool's counters)
-		left := p.CounterSlots
+		left, leftUnits := p.CounterSlots, p.CounterUnits
 		for _, sl := range p.Slices {
 			for _, d := range sl.Devices {
 				key := p.Driver + "/" + p.Name + "/" + d.Name
@@ -173,8 +182,9 @@ func drawC17bDevices(t *rapid.T) *c17bScenario {
 					if dpct(t, 25, "preMem") {
 						s.PreMem[key] = rapid.IntRange(1, d.Mem).Draw(t, "preMemQty")
 					}
-				} else if dpct(t, 12, "preExclusive") && d.Slots <= left {
+				} else if dpct(t, 12, "preExclusive") && d.Slots <= left && d.Units <= leftUnits {
 					left -= d.Slots
+					leftUnits -= d.Units
 					s.PreExclusive = append(s.PreExclusive, key)
 				}
 			}
@@ -185,9 +195,12 @@ func drawC17bDevices(t *rapid.T) *c17bScenario {
 		it := c17bIT{Name: name}
 		if dpct(t, 30, "templateCounters") {
 			it.CounterSlots = rapid.IntRange(1, 3).Draw(t, "templateCounterSlots")
+			if dpct(t, 50, "templateSecondCounterSet") {
+				it.CounterUnits = rapid.IntRange(1, 5).Draw(t, "templateCounterUnits")
+			}
 		}
 		for k := 0; k < rapid.IntRange(0, 3).Draw(t, "templateDevices"); k++ {
-			it.Devices = append(it.Devices, c17bDrawDevice(t, fmt.Sprintf("tdev-%d", k), it.CounterSlots > 0))
+			it.Devices = append(it.Devices, c17bDrawDevice(t, fmt.Sprintf("tdev-%d", k), it.CounterSlots > 0, it.CounterUnits > 0))
 		}
 		s.ITs = append(s.ITs, it)
 	}
@@ -293,11 +306,19 @@ func c17bConsumes(d c17bDevice) []resourcev1.DeviceCounterConsumption {
 	if d.Slots == 0 {
 		return nil
 	}
-	return []resourcev1.DeviceCounterConsumption{{CounterSet: "cs0", Counters: map[string]resourcev1.Counter{"slots": {Value: c17bQty(d.Slots)}}}}
+	out := []resourcev1.DeviceCounterConsumption{{CounterSet: "cs0", Counters: map[string]resourcev1.Counter{"slots": {Value: c17bQty(d.Slots)}}}}
+	if d.Units > 0 {
+		out = append(out, resourcev1.DeviceCounterConsumption{CounterSet: "cs1", Counters: map[string]resourcev1.Counter{"units": {Value: c17bQty(d.Units)}}})
+	}
+	return out
 }
 
-func c17bCounterSets(slots int) []resourcev1.CounterSet {
-	return []resourcev1.CounterSet{{Name: "cs0", Counters: map[string]resourcev1.Counter{"slots": {Value: c17bQty(slots)}}}}
+func c17bCounterSets(slots, units int) []resourcev1.CounterSet {
+	out := []resourcev1.CounterSet{{Name: "cs0", Counters: map[string]resourcev1.Counter{"slots": {Value: c17bQty(slots)}}}}
+	if units > 0 {
+		out = append(out, resourcev1.CounterSet{Name: "cs1", Counters: map[string]resourcev1.Counter{"units": {Value: c17bQty(units)}}})
+	}
+	return out
 }
 
 // c17bNodeClaim is the harness' scheduling NodeClaim / ExistingNode as the allocator sees it (draNodeClaim / draExistingNode).
@@ -377,7 +398,7 @@ func c17bBuild(s *c17bScenario) *c17bWorld {
 		if p.CounterSlots > 0 {
 			rs := mk(p.Name + "-counters")
 			rs.Spec.AllNodes = ptrTo(true)
-			rs.Spec.SharedCounters = c17bCounterSets(p.CounterSlots)
+			rs.Spec.SharedCounters = c17bCounterSets(p.CounterSlots, p.CounterUnits)
 			w.slices = append(w.slices, rs)
 		}
 		for j, sl := range p.Slices {
@@ -401,7 +422,7 @@ func c17bBuild(s *c17bScenario) *c17bWorld {
 	for _, it := range s.ITs {
 		var dyn cloudprovider.DynamicResources
 		if it.CounterSlots > 0 {
-			dyn.ResourceSliceTemplates = append(dyn.ResourceSliceTemplates, &cloudprovider.ResourceSliceTemplate{Driver: unique.Make(c17bGPU), Pool: cloudprovider.ResourcePool{Name: unique.Make("tmpl")}, SharedCounters: c17bCounterSets(it.CounterSlots)})
+			dyn.ResourceSliceTemplates = append(dyn.ResourceSliceTemplates, &cloudprovider.ResourceSliceTemplate{Driver: unique.Make(c17bGPU), Pool: cloudprovider.ResourcePool{Name: unique.Make("tmpl")}, SharedCounters: c17bCounterSets(it.CounterSlots, it.CounterUnits)})
 		}
 		if len(it.Devices) > 0 {
 			tpl := &cloudprovider.ResourceSliceTemplate{Driver: unique.Make(c17bGPU), Pool: cloudprovider.ResourcePool{Name: unique.Make("tmpl")}}
@@ -673,7 +694,8 @@ func (w *c17bWorld) judge(c *ev.Ctx, after string, metadata map[dra.ResourceClai
 					} else {
 						texclusive[tkey] = append(texclusive[tkey], h)
 					}
-					tslots[ncName+"|"+it] += spec.Slots
+					tslots[ncName+"|"+it+"|cs0"] += spec.Slots
+					tslots[ncName+"|"+it+"|cs1"] += spec.Units
 					pk := "tmpl:" + ncName + "|" + it
 					if claimsOnPool[pk] == nil {
 						claimsOnPool[pk] = map[string]bool{}
@@ -702,14 +724,18 @@ func (w *c17bWorld) judge(c *ev.Ctx, after string, metadata map[dra.ResourceClai
 				} else {
 					exclusive[key] = append(exclusive[key], h)
 				}
-				if spec.Slots > 0 {
-					if slots[pool] == nil {
-						slots[pool] = map[string]map[string]int{}
+				for set, n := range map[string]int{"cs0": spec.Slots, "cs1": spec.Units} {
+					if n == 0 {
+						continue
 					}
-					if slots[pool][h.nc] == nil {
-						slots[pool][h.nc] = map[string]int{}
+					k := pool + "#" + set
+					if slots[k] == nil {
+						slots[k] = map[string]map[string]int{}
 					}
-					slots[pool][h.nc][it] += spec.Slots
+					if slots[k][h.nc] == nil {
+						slots[k][h.nc] = map[string]int{}
+					}
+					slots[k][h.nc][it] += n
 				}
 			}
 		}
@@ -771,15 +797,23 @@ func (w *c17bWorld) judge(c *ev.Ctx, after string, metadata map[dra.ResourceClai
 			c.Violate("template-device:capacity-over-consumed", "%s: shared template device %s has capacity %d, but %d is consumed", after, key, spec.Mem, tmem[key])
 		}
 	}
-	for _, pool := range sortedKeys(slots) {
+	for _, poolSet := range sortedKeys(slots) {
+		pool, set, _ := strings.Cut(poolSet, "#")
 		budget := w.poolOf[pool].CounterSlots
+		if set == "cs1" {
+			budget = w.poolOf[pool].CounterUnits
+		}
 		for _, k := range sortedKeys(w.preExclusive) {
 			if w.preExclusive[k] && strings.HasPrefix(k, pool+"/") {
-				budget -= w.devices[k].Slots
+				if set == "cs1" {
+					budget -= w.devices[k].Units
+				} else {
+					budget -= w.devices[k].Slots
+				}
 			}
 		}
 		total := 0
-		for _, byIT := range slots[pool] {
+		for _, byIT := range slots[poolSet] {
 			worst := 0
 			for _, q := range byIT {
 				worst = max(worst, q)
@@ -787,14 +821,18 @@ func (w *c17bWorld) judge(c *ev.Ctx, after string, metadata map[dra.ResourceClai
 			total += worst
 		}
 		if total > budget {
-			c.Violate("counters:over-consumed", "%s: pool %s has %d counter slots left after in-cluster allocations, but %d are consumed in the worst instance-type outcome (%v)", after, pool, budget, total, slots[pool])
+			c.Violate("counters:over-consumed", "%s: counter set %s of pool %s has %d left after in-cluster allocations, but %d are consumed in the worst instance-type outcome (%v)", after, set, pool, budget, total, slots[poolSet])
 		}
 	}
 	for _, key := range sortedKeys(tslots) {
-		it := strings.Split(key, "|")[1]
+		parts := strings.Split(key, "|")
 		for _, spec := range w.s.ITs {
-			if spec.Name == it && tslots[key] > spec.CounterSlots {
-				c.Violate("template-counters:over-consumed", "%s: template pool of %s has %d counter slots, but %d are consumed", after, key, spec.CounterSlots, tslots[key])
+			budget := spec.CounterSlots
+			if parts[2] == "cs1" {
+				budget = spec.CounterUnits
+			}
+			if spec.Name == parts[1] && tslots[key] > budget {
+				c.Violate("template-counters:over-consumed", "%s: counter set %s of the template pool of %s|%s has %d, but %d are consumed", after, parts[2], parts[0], parts[1], budget, tslots[key])
 			}
 		}
 	}
